@@ -568,6 +568,9 @@ def tags(case, runs, retry):
         for s in spans:
             if s[0] == 'w':
                 out.add('slow:write-' + dur_class(int(round((s[2] - s[1]) * 1000)), case['tick']))
+    nfail = sum(1 for e in a['rec'] if e[0] == 'r' and e[2] in ('raise', 'skip') and case['ports'][e[1]]['faulty'])
+    if nfail > len(st):
+        out.add('slow:read-zero')
     T = pr['T']
     ports = case['ports']
     for k, kind, i in stimuli(case):
